@@ -132,6 +132,9 @@ def r3(run, db):
         adm, desc, ng = admitted_with_tables(db, f, inc[0].site)
         reads_in_cycle = any(f.in_cycle(c.site) for c in f.calls() if c.is_("get_status"))
         late = [v for v in adm if v in ("Draining", "Stopping", "Stopped")]
+        early = [v for v in ("Unstarted", "Starting", "Running", "Upgrading") if v not in adm]
+        run.check(not early, key + "|gate-admits-not-yet-running", "the interval keeps going for a target that has not left the running states (admits %s)" % adm,
+                  "the interval cycle ends at once when the target is %s: a target that is merely not started *yet* (spawn_instant, or any ref obtained before the start task ran) never gets a single tick, although it runs normally afterwards; send_after and plain sends accept such a target" % early, f.where())
         run.check(ng >= 1 and reads_in_cycle and not late, key + "|active-gate",
                   "each iteration re-reads the status and goes on only while it is one of %s (%s)" % (adm, desc),
                   "the interval cycle %s: the timer task keeps ticking (and building messages) for a target that left the running states" % (
